@@ -372,7 +372,7 @@ class C49(Check):
         return res
 
     def replay(self, case):
-        with jitlab.JitLab(time_limit=600) as lab:
+        with jitlab.shared() as lab:
             r = judge(lab, case)
         if r is None or isinstance(r, str):
             return None
